@@ -20,6 +20,10 @@ arguments and `**kwargs` packing (a declared collector only contributes its rank
 const promotion, named bundles / bundle inheritance, scalar container patterns, duration windows,
 the OUTPUT-direction matcher (`expected_output`), size hints, Python-sourced candidates.
 
+`TypeRegistry::ref` never interns `REF[REF[X]]` (it returns `REF[X]`); `mkRef` mirrors that, the driver's
+parser uses it, and `subst` uses it where the code calls `registry.ref`.  The matchers are total on
+every `CT` term regardless.
+
 Names (type variables, field names, labels) are naturals; the driver interns strings.
 Core Lean only (no Mathlib) so the driver can run it.
 -/
